@@ -310,14 +310,10 @@ Definition ns (s : rstate) : rstate :=
    0 an operator binding tighter than the relational ones (+ - * / % << >> >>>),
    1 a relational operator other than in (< <= > >= instanceof), 2 in,
    3.. anything binding looser (== != === !== & ^ | && || ?: = and the comma).
-   parseRelationalExpression switches allowIn on once it has its left operand and parses the
-   right operand of < <= > >= instanceof by a recursive call: an `in` there is accepted. *)
+   [r] is scope.allowIn (false in the clause): since 24f7b9d the operands of the relational
+   operators inherit it, so an `in` at this level is accepted only when allowIn is set. *)
 Fixpoint noin_m (r : bool) (ops : list Z) : bool :=
   match ops with
   | [] => true
-  | o :: l =>
-      if o =? 1 then noin_m true l
-      else if o =? 2 then r && noin_m r l
-      else if o =? 0 then noin_m r l
-      else noin_m false l
+  | o :: l => if o =? 2 then r && noin_m r l else noin_m r l
   end.
